@@ -7,6 +7,68 @@ Property theorems only; helper lemmas live in `Ccp.Proofs.Intf`.
 namespace Ccp.C15
 open Ccp.Intf Ccp.Py Ccp.Range
 
+/-! ## names -/
+
+/-- A description of the property's grammar: prefix over `[A-Za-z-]` (may be empty), one number
+(no slot, no separator) or `slot/port` / `slot/card/port` with separator `/`, optional
+subinterface and channel, optional class word: non-empty, over `[A-Za-z-]` (a word with a digit
+such as `l2transport` is not a class word for this parser). Numbers are unbounded. -/
+structure WellFormed (d : Intf) : Prop where
+  pfx : ∀ c ∈ d.pfx, isWordCh c = true
+  shape : (d.slot = none ∧ d.card = none ∧ d.sep = none) ∨ (d.slot.isSome = true ∧ d.sep = some '/')
+  cls : GoodCls d.cls
+
+/-- **name_roundtrip** (first half): every well-formed description renders, and parsing the
+rendering gives back exactly that description — all eight components. -/
+theorem name_roundtrip (d : Intf) (h : WellFormed d) : ∃ s, render d = .ok s ∧ Intf.parse s = .ok d := by
+  obtain ⟨pfx, sep, slot, card, port, sub, chan, cls⟩ := d
+  obtain ⟨hp, hshape, hc⟩ := h
+  simp only at hp hshape hc
+  rcases hshape with ⟨rfl, rfl, rfl⟩ | ⟨hs, rfl⟩
+  · refine ⟨pfx ++ (toDec port ++ tl sub chan cls), by simp [render, number, tl], ?_⟩
+    exact roundtrip_short pfx port sub chan cls hp hc
+  · cases slot with
+    | none => simp at hs
+    | some s =>
+      cases card with
+      | none =>
+        refine ⟨pfx ++ ((toDec s ++ '/' :: toDec port) ++ tl sub chan cls), by simp [render, number, tl, sepStr], ?_⟩
+        exact roundtrip_long pfx _ s none port sub chan cls rfl hp hc
+      | some c =>
+        refine ⟨pfx ++ ((toDec s ++ '/' :: (toDec c ++ '/' :: toDec port)) ++ tl sub chan cls),
+          by simp [render, number, tl, sepStr], ?_⟩
+        exact roundtrip_long pfx _ s (some c) port sub chan cls rfl hp hc
+
+/-- consequently rendering is a fixed point: the re-parsed object renders to the same text and
+is `==` to the original. -/
+theorem name_roundtrip_stable (d : Intf) (h : WellFormed d) :
+    ∃ s, render d = .ok s ∧ (Intf.parse s).bind render = .ok s ∧
+      (Intf.parse s).map (fun j => eq d j) = .ok true := by
+  obtain ⟨s, h1, h2⟩ := name_roundtrip d h
+  refine ⟨s, h1, by simp [h2, Except.bind, h1], ?_⟩
+  simp [h2, Except.map, eq]
+
+/- **name_roundtrip** (second half), NOT PROVED here:
+     ∀ s d, parse s = .ok d → ∃ r, render d = .ok r ∧ parse r = .ok d
+   for every accepted `s`, including a blank after the prefix, leading zeros, trailing junk.
+   Missing: that every output of the scanners is a fixed point of render-then-scan when the
+   prefix keeps interior whitespace (`Port channel1`) or the class word follows junk
+   (`Eth1 foo bar`); the statement is exercised on every accepted name of the correspondence
+   run (the `name` request re-parses the rendering on both sides and the oracle compares the
+   two component lists). -/
+
+-- non-vacuity: the docstring example of the class, three numbers, subinterface, channel, class word
+example : WellFormed { pfx := "Serial".toList, sep := some '/', slot := some 4, card := some 1, port := 2,
+                       sub := some 9, chan := some 5, cls := some "point-to-point".toList } :=
+  ⟨by decide, Or.inr ⟨rfl, rfl⟩, by intro w hw; cases hw; exact ⟨by decide, by decide⟩⟩
+example : ((Intf.parse "Serial 4/1/2.9:5 point-to-point".toList).toOption.map
+            (fun d => (d.slot, d.card, d.port, d.sub, d.chan)))
+          = some (some 4, some 1, 2, some 9, some 5) := by decide
+example : render { pfx := "Serial".toList, sep := some '/', slot := some 4, card := some 1, port := 2,
+                   sub := some 9, chan := some 5, cls := some "point-to-point".toList }
+          = .ok "Serial4/1/2.9:5 point-to-point".toList := by
+  simp [render, number, sepStr, optNum, clsStr, toDec, toDecRev]
+
 /-! ## equality, hash, order -/
 
 /-- **eq_hash**: objects that compare equal have the same `__hash__` value and the same `hash()`. -/
